@@ -12,7 +12,27 @@ pub enum PoolItem {
     SuffixOf(u16, u8),
     /// same text as an earlier pool string (a second pool entry with identical text)
     DupOf(u16),
+    /// BOTH members of one pair of different strings that collide under a common 32-bit string hash
+    /// (index into `COLLIDING_PAIRS`): a writer or reader that identifies strings by such a hash alone
+    /// confuses them
+    CollidingPair(u8),
 }
+
+/// Pairs of distinct strings with equal 32-bit hash under FNV-1a, FNV-1, djb2 (add / xor), sdbm, x31
+/// (Java), Jenkins one-at-a-time, CRC-32 and MurmurHash3 (seed 0) — found by birthday search when the
+/// check was written; three per function, plus two English-word FNV-1a pairs.
+pub const COLLIDING_PAIRS: [(&str, &str); 29] = [
+    ("omwmnrzq", "mroujnz"), ("vcuvl", "qnfzqncdg"), ("jrolhlw", "shzrfxdm"),
+    ("fsfirsj", "fswjqtfv"), ("omobs", "temhbccz"), ("uqgohhmcw", "rkrxophjo"),
+    ("rhdkna", "umeenrmnq"), ("jjkhd", "ncwofn"), ("qgfgz", "njtjfc"),
+    ("ykmtgx", "upweahj"), ("yyvmzsw", "oemvbpf"), ("phrydebrm", "hibebk"),
+    ("rwpqxcw", "iefacroo"), ("pxthhebb", "pjkjvpyvi"), ("hilxjwcat", "cqaslddh"),
+    ("ilwtlvgvs", "mifdt"), ("xhkiubvd", "zkpeylrcs"), ("ubuydftu", "iumidbzh"),
+    ("nsfgk", "sqmvie"), ("mlydy", "iqehy"), ("kmfgm", "ewepo"),
+    ("zsadu", "vtvobx"), ("vjgoag", "dbagj"), ("ajkhsfhts", "pwhtgonlr"),
+    ("aremq", "cciks"), ("gtqleko", "ghzima"), ("hdkads", "gsbel"),
+    ("costarring", "liquid"), ("declinate", "macallums"),
+];
 
 #[derive(Clone, Debug)]
 pub struct Params {
@@ -71,6 +91,11 @@ pub fn resolve_pool(items: &[PoolItem]) -> Vec<String> {
     let mut out: Vec<String> = vec![];
     for it in items {
         let s = match it {
+            PoolItem::CollidingPair(i) => {
+                let (a, b) = COLLIDING_PAIRS[*i as usize % COLLIDING_PAIRS.len()];
+                out.push(a.to_string());
+                b.to_string()
+            }
             PoolItem::Text(s) => s.replace('\0', "0"),
             PoolItem::SuffixOf(sel, cut) => {
                 if out.is_empty() {
@@ -241,6 +266,7 @@ fn pool_item() -> impl Strategy<Value = PoolItem> {
         12 => text().prop_map(PoolItem::Text),
         3 => (any::<u16>(), 0u8..12).prop_map(|(s, c)| PoolItem::SuffixOf(s, c)),
         2 => any::<u16>().prop_map(PoolItem::DupOf),
+        1 => any::<u8>().prop_map(PoolItem::CollidingPair),
     ]
 }
 
